@@ -60,6 +60,7 @@ class Peer:
         self.datagram = datagram
         self.reset_on_reconnect = stream_reset_on_reconnect
         self.q = []               # [due, bytes] in arrival order
+        self.waits = []           # every timeout handed to select / used by a blocking read
         self.rx_err = None        # None | "oserror" | "close"  (close: end of file once the queued bytes are read)
         self.half = False
         self.tx_err = False
@@ -164,6 +165,7 @@ class Peer:
         return out
 
     def wait_readable(self, timeout):
+        self.waits.append(timeout)
         if self.rx_err or self.avail():
             return True
         d = self.next_due()
@@ -250,6 +252,7 @@ class FakeSerial:
             raise serial.SerialException("scripted")
         if size is None or size <= 0:
             return b""
+        p.waits.append(self.timeout)
         start = p.clock.t
         out = b""
         while True:
@@ -617,6 +620,8 @@ class Rig:
         entry_connected = bool(c.socket)
         hang = False
         surplus_before = self.peer.avail()
+        self.peer.waits = []
+        t_start = self.clock.t
         with self.patched():
             try:
                 r = c.execute(req)
@@ -661,6 +666,8 @@ class Rig:
                       "ntx": entry_tx, "connected": entry_connected},
             "trace": list(self.trace), "framer": list(self.fr_events), "delivered": list(self.delivered),
             "written": list(self.peer.written), "result": res, "is_error": is_error,
+            "timeout": units(c.timeout or 0), "elapsed": units(self.clock.t - t_start),
+            "max_wait": max([10 ** 9 if w is None else units(w) for w in self.peer.waits] or [0]),
             "sleeps": [int(round(d / backoff * 2)) for d in delays],
             "exit": {"ntx": len(c.transaction.transactions), "noresp": list(c.transaction._no_response_devices),
                      "tid": int(c.transaction.tid), "state": self.fstate(), "connected": bool(c.socket)},
@@ -671,6 +678,12 @@ class Rig:
 
 
 # ----------------------------------------------------------------------------- Coq terms
+
+def units(seconds):
+    """virtual seconds -> 1/64 s, rounded up"""
+    import math
+    return int(math.ceil(float(seconds) * 64 - 1e-9))
+
 
 def z(n):
     n = int(n)
@@ -740,14 +753,15 @@ def txn_term(o, req_id, behs):
             "   x_calls := %s; x_result := %s; x_sleeps := %s;\n"
             "   x_fs_exit := %s; x_noresp_exit := %s; x_tid_exit := %s; x_ntx_exit := %s; x_conn_exit := %s;\n"
             "   x_want_tid := %s; x_behs := %s; x_exp_full := %s; x_exp_exc := %s; x_delivered := %s; x_refused := %s;\n"
-            "   x_is_error := %s |}") % (
+            "   x_is_error := %s; x_timeout := %s; x_elapsed := %s; x_max_wait := %s |}") % (
         z(o["unit"]), z(o["fc"]), copt(o["pdu_size"]), z(req_id), clist(sc),
         clist(calls), cresult(o["result"]), clist(z(x) for x in o["sleeps"]),
         z(o["exit"]["state"]), clist(z(x) for x in o["exit"]["noresp"]), z(o["exit"]["tid"]), z(o["exit"]["ntx"]),
         cbool(o["exit"]["connected"]),
         z(o["want_tid"]), clist(BEH.get(b, "BOther") for b in behs), z(o["expected"]["full"] or 0),
         z(o["expected"]["exc"] or 0), clist(cmsg(m) for m in o["delivered"]), cbool(o["refused"]),
-        "None" if o["is_error"] is None else "(Some %s)" % cbool(o["is_error"]))
+        "None" if o["is_error"] is None else "(Some %s)" % cbool(o["is_error"]),
+        z(o["timeout"]), z(o["elapsed"]), z(o["max_wait"]))
 
 
 def table_term(rig, obs_list, req_ids):
